@@ -1,5 +1,6 @@
 import PysnarkModel.Lemmas.Sound
 import PysnarkModel.Lemmas.InvGadgets
+import PysnarkModel.Lemmas.SoundClaims
 /-!
 # C03 — assertions and declared types are enforced inside the circuit
 
@@ -125,5 +126,79 @@ theorem C03_sat {s s' : St} {a b : LinComb} {u : Unit} (hinv : Inv s) (ha : Good
 /-! non-vacuity -/
 example : (match (do let x ← privVal 3; let y ← privVal 5; assertLt x y) (St.init 97 4 8) with
     | .ok (_, s1) => s1.cons.length == 5 | _ => false) = true := by decide +kernel
+
+/-! ## program level: no satisfying assignment can violate an executed assertion
+
+`claimsOf s0 prog` (`Spec/SoundProg.lean`) replays the run and lists, for every executed
+`assert_zero/nonzero/eq/ne/lt/le/gt/ge/positive/range`, `to_bits(n)` and boolean declaration
+(`LinCombBool(x)`, `PrivValBool`, `PubValBool`), the relation it claims over the wire expressions of
+its operands (`Claim`): `lt n a b` is `b − a − 1 ∈ [0, 2^n)` in the field, `nonneg n x` is
+`x ∈ [0, 2^n)`, `n` the width in force (the requested one for `assert_positive(n)`/`to_bits(n)`).
+The fragment is the one of `C02_determined` (`SoundFragment`; it contains every assertion method). -/
+
+/-- **C03, program level.**  For a completing run in the fragment and EVERY assignment `w'` (to
+all wires, with the constant wire at 1) that satisfies every emitted constraint modulo `p`, the
+relation of every executed assertion and declaration holds OF THE VALUES UNDER `w'`.  No agreement
+with the recorded witness is needed: the assertions bind every prover. -/
+theorem C03_program (p : ℕ) [Fact p.Prime] (bl res : ℕ) (hbl : 2 ^ (bl + 1) ≤ p)
+    (prog : List Instr) (hfrag : SoundFragment (St.init p bl res) prog)
+    (out : Out) (hout : run (St.init p bl res) prog = out) (herr : out.err = none)
+    (w' : Wire → Int) (h1 : w' .one = 1)
+    (hsat : ∀ c ∈ out.st.cons, Sat (p : Int) w' c) :
+    ∀ c ∈ claimsOf (St.init p bl res) prog, c.holds (p : Int) w' :=
+  run_claims p bl res hbl prog hfrag out hout herr w' h1 hsat
+
+/-- a multiple of `p` strictly between `-p` and `p` is 0 -/
+theorem eq_zero_of_emod_of_lt {p : ℕ} {x : Int} (h : x % (p : Int) = 0) (hlo : -(p : Int) < x)
+    (hhi : x < (p : Int)) : x = 0 :=
+  Int.eq_zero_of_abs_lt_dvd (Int.dvd_of_emod_eq_zero h) (abs_lt.mpr ⟨hlo, hhi⟩)
+
+/-- integer reading of an order claim: when the integer `b − a − 1` computed from the values under
+`w'` is range-bounded (no wrap-around: it lies strictly between `−(p − 2^n)` and `p`), the field
+statement is the integer inequality `a < b` -/
+theorem C03_lt_integer {p n : ℕ} {w : Wire → Int} {a b : LC} (hn : 2 ^ n ≤ p)
+    (h : (Claim.lt n a b).holds (p : Int) w)
+    (hlo : -((p : Int) - 2 ^ n) < LC.eval w b - LC.eval w a - 1)
+    (hhi : LC.eval w b - LC.eval w a - 1 < (p : Int)) : LC.eval w a < LC.eval w b := by
+  obtain ⟨S, hS, hE⟩ := h
+  unfold EqMod at hE
+  have hS' : (S : Int) < 2 ^ n := by exact_mod_cast hS
+  have hn' : ((2 : Int) ^ n) ≤ (p : Int) := by exact_mod_cast hn
+  have hS0 : (0 : Int) ≤ S := Int.natCast_nonneg S
+  have hd := eq_zero_of_emod_of_lt hE (by omega) (by omega)
+  omega
+
+/-- likewise for `≤` -/
+theorem C03_le_integer {p n : ℕ} {w : Wire → Int} {a b : LC} (hn : 2 ^ n ≤ p)
+    (h : (Claim.le n a b).holds (p : Int) w)
+    (hlo : -((p : Int) - 2 ^ n) < LC.eval w b - LC.eval w a)
+    (hhi : LC.eval w b - LC.eval w a < (p : Int)) : LC.eval w a ≤ LC.eval w b := by
+  obtain ⟨S, hS, hE⟩ := h
+  unfold EqMod at hE
+  have hS' : (S : Int) < 2 ^ n := by exact_mod_cast hS
+  have hn' : ((2 : Int) ^ n) ≤ (p : Int) := by exact_mod_cast hn
+  have hS0 : (0 : Int) ≤ S := Int.natCast_nonneg S
+  have hd := eq_zero_of_emod_of_lt hE (by omega) (by omega)
+  omega
+
+/-! non-vacuity of `C03_program`: the 14-instruction program `c03Prog` (two inputs, a product, two
+comparisons, a selection, an exact division, `b.assert_lt(a)`, `(a/b).assert_eq(2)`) completes
+inside the fragment over `p = 97`, bit length 4; its claims are `b < a` at width 4 and
+`a/b = 2`; the recorded assignment satisfies the 24 constraints -/
+def c03Prog : List Instr :=
+  [.lit (.int 6), .lit (.int 3), .mk .priv 0, .mk .priv 1, .bin .mul 2 3, .bin .lt 3 2, .bin .ge 2 3,
+   .ite 5 2 3, .bin .truediv 2 3, .call .assertLt 3 [2], .lit (.int 2), .bin .eq 8 10, .bin .band 5 6,
+   .call .assertEq 8 [10]]
+
+example :
+    (2 : ℕ) ^ (4 + 1) ≤ 97 ∧ SoundFragment (St.init 97 4 8) c03Prog ∧
+    claimsOf (St.init 97 4 8) c03Prog =
+      [.lt 4 [(Wire.priv 1, 1)] [(Wire.priv 0, 1)], .eq [(Wire.priv 14, 1)] [(Wire.one, 2)]] ∧
+    (let out := run (St.init 97 4 8) c03Prog
+     out.err.isNone && (out.st.cons.length == 24) && out.st.cons.all (satB 97 out.st.assign)) = true := by
+  refine ⟨by decide, ?_, ?_, ?_⟩
+  · first | decide +kernel | fail "c03Prog is not in the fragment"
+  · first | decide +kernel | fail "c03Prog: unexpected claims"
+  · first | decide +kernel | fail "c03Prog: run check failed"
 
 end Pysnark
